@@ -9,7 +9,7 @@ from __future__ import annotations
 
 import z3
 
-from pyvc.values import ANY, BOOL, FUNC, INT, LIST, REF, Ty, fresh
+from pyvc.values import forall, ANY, BOOL, FUNC, INT, LIST, REF, Ty, fresh
 
 # ---------------------------------------------------------------------------
 # static types of the object fields (by `Class.field`, falling back to `field`)
@@ -38,10 +38,10 @@ FIELD_TYPES = {
     "Dispatcher.subscribers": LIST(REF("DispatcherObserver")),
     "Dispatcher._cache": ANY,
     "DispatcherObserver.dispatcher": REF("Dispatcher"),
-    "HistoryObserver.history": LIST(REF("ScheduledOperation")),
-    "RewardObserver.rewards": LIST(INT),
+    "HistoryObserver.history": LIST(REF("ScheduledOperation"), "o"),
+    "RewardObserver.rewards": LIST(INT, "o"),
     "MakespanReward.current_makespan": INT,
-    "UnscheduledOperationsObserver.unscheduled_operations_per_job": LIST(Ty("deque", REF("Operation"))),
+    "UnscheduledOperationsObserver.unscheduled_operations_per_job": LIST(LIST(REF("Operation"), "o"), "o"),
     "DispatchingRuleSolver.dispatching_rule": FUNC,
     "DispatchingRuleSolver.machine_chooser": FUNC,
     "DispatchingRuleSolver.ready_operations_filter": FUNC,
@@ -127,15 +127,15 @@ def valid_instance(h, I, bound=None):
     A = h.alloc if bound is None else bound
     return [
         ("inst-refs", z3.And(I > 0, I < A, it.jobs > 0, it.jobs < A, it.J >= 1, it.NM >= 1)),
-        ("inst-jobs", z3.ForAll([j], imp(rng(j, 0, it.J),
+        ("inst-jobs", forall([j], imp(rng(j, 0, it.J),
                                          z3.And(it.job(j) > 0, it.job(j) < A, it.L(j) >= 1)),
                                 patterns=[it.job(j)])),
-        ("inst-ops", z3.ForAll([j, p], imp(z3.And(rng(j, 0, it.J), rng(p, 0, it.L(j))),
+        ("inst-ops", forall([j, p], imp(z3.And(rng(j, 0, it.J), rng(p, 0, it.L(j))),
                                            z3.And(o > 0, o < A, it.jid(o) == j, it.pos(o) == p,
                                                   it.dur(o) >= 0, it.machines(o) > 0,
                                                   it.machines(o) < A, it.nmach(o) >= 1)),
                                patterns=[it.op(j, p)])),
-        ("inst-machines", z3.ForAll([j, p, q], imp(z3.And(rng(j, 0, it.J), rng(p, 0, it.L(j)),
+        ("inst-machines", forall([j, p, q], imp(z3.And(rng(j, 0, it.J), rng(p, 0, it.L(j)),
                                                           rng(q, 0, it.nmach(o))),
                                                    rng(it.mach(o, q), 0, it.NM)),
                                     patterns=[it.mach(o, q)])),
@@ -233,32 +233,33 @@ def reach(h, d):
             h.len(D.mnat) == D.M, h.len(D.k) == it.J, h.len(D.jnat) == it.J,
             h.len(D.subs) >= 0, born > 0, born <= A,
             z3.Distinct(*own), z3.And([l >= born for l in own]))),
-        ("R1-machine-lists", z3.ForAll([m], imp(rng(m, 0, D.M),
+        ("R1-machine-lists", forall([m], imp(rng(m, 0, D.M),
                                                 z3.And(D.Sm(m) >= born, D.Sm(m) < A, D.nS(m) >= 0,
                                                        z3.And([D.Sm(m) != l for l in own]))),
                                        patterns=[D.Sm(m)])),
-        ("R1-machine-lists-distinct", z3.ForAll([m, m2], imp(
+        ("R1-machine-lists-distinct", forall([m, m2], imp(
             z3.And(rng(m, 0, D.M), rng(m2, 0, D.M), D.Sm(m) == D.Sm(m2)), m == m2),
             patterns=[z3.MultiPattern(D.Sm(m), D.Sm(m2))])),
-        ("R2-next-index", z3.ForAll([j], imp(rng(j, 0, it.J), z3.And(D.kj(j) >= 0, D.kj(j) <= it.L(j))),
+        ("R2-next-index", forall([j], imp(rng(j, 0, it.J), z3.And(D.kj(j) >= 0, D.kj(j) <= it.L(j))),
                                     patterns=[D.kj(j)])),
-        ("R4a-scheduled-are-ops", z3.ForAll([m, i], imp(in_mi, z3.And(
+        ("R4a-scheduled-are-ops", forall([m, i], imp(in_mi, z3.And(
             x > 0, x < A, it.is_op(o), it.pos(o) < D.kj(it.jid(o)),
             D.posm(o) == m, D.posi(o) == i)), patterns=[D.x(m, i)])),
-        ("R5-machine-eligible", z3.ForAll([m, i], imp(in_mi, z3.And(
+        ("R5-machine-eligible", forall([m, i], imp(in_mi, z3.And(
             D.mid(x) == m, rng(D.mq(x), 0, it.nmach(o)), it.mach(o, D.mq(x)) == m)), patterns=[D.x(m, i)])),
-        ("R4b-ops-before-k-scheduled", z3.ForAll([j, p], imp(in_jp, z3.And(
+        ("R4b-ops-before-k-scheduled", forall([j, p], imp(in_jp, z3.And(
             rng(D.posm(oj), 0, D.M), rng(D.posi(oj), 0, D.nS(D.posm(oj))),
             D.opx(D.x(D.posm(oj), D.posi(oj))) == oj)), patterns=[it.op(j, p)])),
-        ("R6-forced-start", z3.ForAll([m, i], imp(in_mi, z3.And(
+        ("R6-forced-start", forall([m, i], imp(in_mi, z3.And(
             D.start(x) == zmax(D.jp_end(o), D.mp_end(m, i)), D.start(x) >= 0)), patterns=[D.x(m, i)])),
-        ("R8-machine-free", z3.ForAll([m], imp(rng(m, 0, D.M),
+        ("R8-machine-free", forall([m], imp(rng(m, 0, D.M),
                                                D.mn(m) == z3.If(D.nS(m) > 0, D.end(D.x(m, D.nS(m) - 1)), 0)),
                                       patterns=[D.mn(m)])),
-        ("R8-job-ready", z3.ForAll([j], imp(rng(j, 0, it.J),
-                                            D.jn(j) == z3.If(D.kj(j) > 0, D.end(D.slot(j, D.kj(j) - 1)), 0)),
+        ("R8-job-ready", forall([m, i], imp(z3.And(in_mi, it.pos(o) == D.kj(it.jid(o)) - 1),
+                                             D.jn(it.jid(o)) == D.end(x)), patterns=[D.x(m, i)])),
+        ("R8-job-ready-0", forall([j], imp(z3.And(rng(j, 0, it.J), D.kj(j) == 0), D.jn(j) == 0),
                                    patterns=[D.jn(j)])),
-        ("R-subscribers", z3.ForAll([s], imp(rng(s, 0, h.len(D.subs)),
+        ("R-subscribers", forall([s], imp(rng(s, 0, h.len(D.subs)),
                                              z3.And(h.at(D.subs, s) > 0, h.at(D.subs, s) < A,
                                                     h.get("dispatcher", h.at(D.subs, s)) == d)),
                                     patterns=[h.at(D.subs, s)])),
@@ -276,21 +277,21 @@ def feasible(h, d):
     in_mi = z3.And(rng(m, 0, D.M), rng(i, 0, D.nS(m)))
     in_mi2 = z3.And(rng(m2, 0, D.M), rng(i2, 0, D.nS(m2)))
     return [
-        ("F1-each-operation-at-most-once", z3.ForAll([m, i, m2, i2], imp(
+        ("F1-each-operation-at-most-once", forall([m, i, m2, i2], imp(
             z3.And(in_mi, in_mi2, z3.Or(m != m2, i != i2)), D.opx(x) != D.opx(x2)))),
-        ("F2-eligible-machine", z3.ForAll([m, i], imp(in_mi, z3.And(
+        ("F2-eligible-machine", forall([m, i], imp(in_mi, z3.And(
             D.mid(x) == m, z3.Exists([q], z3.And(rng(q, 0, it.nmach(D.opx(x))), it.mach(D.opx(x), q) == m)))))),
-        ("F3-job-order-no-overlap", z3.ForAll([m, i, m2, i2], imp(
+        ("F3-job-order-no-overlap", forall([m, i, m2, i2], imp(
             z3.And(in_mi, in_mi2, it.jid(D.opx(x)) == it.jid(D.opx(x2)),
                    it.pos(D.opx(x)) + 1 == it.pos(D.opx(x2))),
             D.end(x) <= D.start(x2)))),
-        ("F3-job-prefix-closed", z3.ForAll([m, i], imp(
+        ("F3-job-prefix-closed", forall([m, i], imp(
             z3.And(in_mi, it.pos(D.opx(x)) > 0),
             z3.Exists([m2, i2], z3.And(in_mi2, it.jid(D.opx(x2)) == it.jid(D.opx(x)),
                                        it.pos(D.opx(x2)) + 1 == it.pos(D.opx(x))))))),
-        ("F4-machine-order-no-overlap", z3.ForAll([m, i], imp(z3.And(in_mi, i > 0),
+        ("F4-machine-order-no-overlap", forall([m, i], imp(z3.And(in_mi, i > 0),
                                                               D.end(D.x(m, i - 1)) <= D.start(x)))),
-        ("F5-start-nonnegative", z3.ForAll([m, i], imp(in_mi, D.start(x) >= 0))),
+        ("F5-start-nonnegative", forall([m, i], imp(in_mi, D.start(x) >= 0))),
     ]
 
 
@@ -304,16 +305,16 @@ def derived(h, d):
     x2 = D.x(m2, i2)
     in_mi2 = z3.And(rng(m2, 0, D.M), rng(i2, 0, D.nS(m2)))
     return [
-        ("D-machine-next-available", z3.ForAll([m], imp(rng(m, 0, D.M), D.mn(m) == z3.If(
+        ("D-machine-next-available", forall([m], imp(rng(m, 0, D.M), D.mn(m) == z3.If(
             D.nS(m) > 0, D.end(D.x(m, D.nS(m) - 1)), 0)))),
         # job next available = end of the scheduled operation of that job with the highest position
-        ("D-job-next-available", z3.ForAll([j, m2, i2], imp(
+        ("D-job-next-available", forall([j, m2, i2], imp(
             z3.And(rng(j, 0, it.J), in_mi2, it.jid(D.opx(x2)) == j, it.pos(D.opx(x2)) == D.kj(j) - 1),
             D.jn(j) == D.end(x2)))),
-        ("D-job-next-available-0", z3.ForAll([j], imp(z3.And(rng(j, 0, it.J), D.kj(j) == 0), D.jn(j) == 0))),
+        ("D-job-next-available-0", forall([j], imp(z3.And(rng(j, 0, it.J), D.kj(j) == 0), D.jn(j) == 0))),
         # next index = number of scheduled operations of the job = 1 + highest scheduled position
-        ("D-next-index-upper", z3.ForAll([m2, i2], imp(in_mi2, it.pos(D.opx(x2)) < D.kj(it.jid(D.opx(x2)))))),
-        ("D-next-index-attained", z3.ForAll([j], imp(z3.And(rng(j, 0, it.J), D.kj(j) > 0), z3.Exists(
+        ("D-next-index-upper", forall([m2, i2], imp(in_mi2, it.pos(D.opx(x2)) < D.kj(it.jid(D.opx(x2)))))),
+        ("D-next-index-attained", forall([j], imp(z3.And(rng(j, 0, it.J), D.kj(j) > 0), z3.Exists(
             [m2, i2], z3.And(in_mi2, it.jid(D.opx(x2)) == j, it.pos(D.opx(x2)) == D.kj(j) - 1))))),
     ]
 
